@@ -181,6 +181,7 @@ type Worker struct {
 	domains    map[*sym.Term]string // symbolic bytes with a known finite alphabet
 	knownSites map[string]string    // panic site substring -> known-finding id
 	knownHit   map[string]*sym.Term // known-finding predicates true on this path (id -> cond term or nil=concrete true)
+	mapDesc    bool                 // map iterations in descending key order (verifMapOrderSet)
 
 	local [][]Decision
 	cov   map[*ssa.Function]map[ssa.Instruction]bool
@@ -892,6 +893,7 @@ func (w *Worker) runPath(prefix []Decision) {
 	w.pathViol = 0
 	w.knownHit = nil
 	w.knownSites = nil
+	w.mapDesc = false
 	w.domains = nil
 	i := w.interp
 	i.steps, i.depth = 0, 0
